@@ -107,7 +107,7 @@ def cases(tier, seed, shard, nshards):
                     yield {"kind": "borrowed", "flav": flav, "taken": taken, "how": how, "keys": [0, 1, 2, 3, 0, 1]}
     for depth in (2, 3):
         for order in _it.permutations(range(depth)):
-            for flav in ("async_class", "async_gen", "slowclose"):
+            for flav in ("async_class", "async_gen", "slowclose", "async_class_full"):
                 for taken in (0, 1, 2):
                     k += 1
                     if k % nshards == shard:
@@ -332,6 +332,17 @@ def run_manual(case, stats):
                         if st.pos != pos:
                             viols.append({"key": "scoped_iter/handle-alive-after-exit", "msg": f"{head}: dead handle advanced the underlying"})
                             return
+                    if lv in exited and hasattr(handles[lv], "asend") and not closed_now():
+                        # sending through a handle whose scope ended must not reach the iterator beneath either
+                        try:
+                            item = await handles[lv].asend(None)
+                            viols.append({"key": "scoped_iter/handle-alive-after-exit",
+                                          "msg": f"{head}: asend on the handle of level {lv} gave {item} after its scope ended"})
+                            return
+                        except StopAsyncIteration:
+                            if st.pos != pos:
+                                viols.append({"key": "scoped_iter/handle-alive-after-exit", "msg": f"{head}: asend on a dead handle advanced the underlying"})
+                                return
             # handles above every exited level still work while the underlying is open
             if not want_closed:
                 for lv in range(0, dead_from):
